@@ -11,5 +11,6 @@ func init() {
 		ReadAhead(c, "R-READAHEAD", libPkgs(c))
 		StratLazy(c, "R-STRAT-LAZY", libPkgs(c))
 		Bound(c, "R-BOUND", libFuncs(c))
+		OneShot(c, "R-ONESHOT", libPkgs(c))
 	})
 }
